@@ -3,12 +3,14 @@
 HERE=$(cd "$(dirname "$0")" && pwd)
 cd "$HERE/specs" || exit 1
 rc=0
+mkdir -p "$HERE/out/sany_tmp"
 for f in *.tla; do
-  out=$(java -cp /opt/veriftools/tla/tla2tools.jar:/opt/veriftools/tla/CommunityModules-deps.jar tla2sany.SANY "$f" 2>&1)
+  out=$(java -Djava.io.tmpdir="$HERE/out/sany_tmp" -cp /opt/veriftools/tla/tla2tools.jar:/opt/veriftools/tla/CommunityModules-deps.jar tla2sany.SANY "$f" 2>&1)
   if echo "$out" | grep -q -E "Semantic errors|Parse Error|Fatal errors|Could not"; then
     echo "SANY FAILED: $f"; echo "$out" | tail -20; rc=1
   fi
 done
+rm -rf "$HERE/out/sany_tmp"
 mkdir -p "$HERE/out" "$HERE/evidence"
 [ $rc = 0 ] && echo "setup ok: $(ls *.tla | wc -l) modules parse"
 exit $rc
